@@ -1,9 +1,10 @@
+pub mod c01;
 pub mod c03;
 
 use crate::runner::Prop;
 
 pub fn all() -> Vec<Box<dyn Prop>> {
-    vec![Box::new(c03::C03)]
+    vec![Box::new(c01::C01), Box::new(c03::C03)]
 }
 
 pub fn by_id(id: &str) -> Option<Box<dyn Prop>> {
